@@ -469,12 +469,15 @@ fn witness_supras(sy: &mut Syllable, alphas: &RefCell<HashMap<char, Alpha>>, p: 
             && r->Ok_0 == 1 - run_len(old(self).segments@, pos as int)
             && final(self).stress == old(self).stress && final(self).tone == old(self).tone),
 //@ end
+//@ loop_ghost_before Syllable::replace_segment 0
+    let ghost s_in = self.segments@;      // state at loop entry (the code may already have overwritten segments[pos])
+    let ghost n_in = seg_len as int;
+//@ end
 //@ loop Syllable::replace_segment 0
     invariant
-        pos < old(self).segments@.len(),
-        1 <= seg_len, seg_len as int <= run_len(old(self).segments@, pos as int),
-        self.segments@ =~= old(self).segments@.subrange(0, pos + 1)
-            + old(self).segments@.subrange(pos + 1 + (run_len(old(self).segments@, pos as int) - seg_len), old(self).segments@.len() as int),
+        pos < s_in.len(), pos + n_in <= s_in.len(),
+        1 <= seg_len, seg_len as int <= n_in,
+        self.segments@ =~= s_in.subrange(0, pos + 1) + s_in.subrange(pos + 1 + (n_in - seg_len), s_in.len() as int),
         self.stress == old(self).stress, self.tone == old(self).tone,
     decreases seg_len,
 //@ end
